@@ -2,7 +2,7 @@
 from . import regcommon
 
 THEOREMS = ["ZI.Lv.find_update", "ZI.Lv.find_remove"]
-PROFILE = dict(weights=[0.5, 0.2, 7, 2.5, 0.6, 0.1, 0], queries=["subs", "book"], nregs=(1, 3), extra_queries=4, arity=[0, 1, 1, 1, 2, 2, 3])
+PROFILE = dict(weights=[0.5, 0.2, 7, 2.5, 0.6, 0.1, 0], queries=["lookupAll", "subs", "book"], nregs=(1, 3), extra_queries=4, arity=[0, 1, 1, 1, 2, 2, 3])
 
 
 def check(tier):
